@@ -1897,8 +1897,8 @@ func (a *Authenticator) plaintextOutcome(negotiation *SecurityNegotiation) error
 // checkResumedSession holds a resumed session to this endpoint's own policy exactly
 // as a fresh handshake is: the reported Encryption is the stream's real state (not
 // what the cached key's protocol name suggests), REQUIRED encryption/integrity needs
-// a stream that really encrypts, and REQUIRED authentication needs a session that
-// was recorded as authenticated. Without this a session negotiated under a laxer
+// a stream that really encrypts, and (on the client) REQUIRED authentication needs a
+// session that was recorded as authenticated. Without this a session negotiated under a laxer
 // policy (or a cache entry with no usable key) could be resumed by a handshake
 // whose policy it does not satisfy.
 func (a *Authenticator) checkResumedSession(negotiation *SecurityNegotiation) error {
@@ -1909,7 +1909,11 @@ func (a *Authenticator) checkResumedSession(negotiation *SecurityNegotiation) er
 	if !negotiation.Encryption && (a.config.Encryption == SecurityRequired || a.config.Integrity == SecurityRequired) {
 		return fmt.Errorf("resumed session is not encrypted but local policy requires encryption/integrity")
 	}
-	if a.config.Authentication == SecurityRequired && !negotiation.Authentication {
+	// Authentication: only the client can judge here. On the server the policy that
+	// applies to a resumed session is the one of the command being run, which the
+	// dispatching server checks per command against the restored outcome
+	// (negotiation.Authentication); a.config is merely the default.
+	if negotiation.IsClient && a.config.Authentication == SecurityRequired && !negotiation.Authentication {
 		return fmt.Errorf("resumed session is not authenticated but local policy requires authentication")
 	}
 	return nil
